@@ -666,12 +666,13 @@ func CheckDriverLog(plan DriverPlan, lg DrvLog) []Binding {
 			}
 		}
 		if res.Panic != "" {
-			what := "panic"
+			what, opt := "panic", customOpt
 			if mp.Twin && strings.Contains(res.Panic, "interface conversion") {
 				// two result types with one base name share one generated promise type
-				what = "panic/same-base-name-types"
+				// (one root cause per promise kind, whether or not the type is a custom return type)
+				what, opt = "panic/same-base-name-types", ""
 			}
-			bad(mp, customOpt, what, "the stub panicked: "+firstLines(res.Panic, 1), "%s", trim(res.Panic, 1500))
+			bad(mp, opt, what, "the stub panicked: "+firstLines(res.Panic, 1), "%s", trim(res.Panic, 1500))
 			continue
 		}
 		if res.TimedOut {
